@@ -391,6 +391,66 @@ def folder_history_cases(run):
     shutil.rmtree(d, ignore_errors=True)
 
 
+def path_spelling_cases(run):
+    """the same folder reached through differently spelled paths (absolute,
+    with "..", below a hidden folder, relative): one curve object per
+    recorded curve each time"""
+    import os
+    import nanite
+    from nanite import read as nread
+    files = [f for f in fd_files() if "bad" not in f.name]
+    singles = [f for f in files if f.name.endswith(".jpk-force")][:1]
+    maps = [f for f in files if f.name.endswith(".jpk-force-map")][:1]
+    if not singles or not maps:
+        run.count("path-spelling-data-missing")
+        return
+    top = common.scratch() / "c20-paths"
+    shutil.rmtree(top, ignore_errors=True)
+    plain = top / "plain" / "data"
+    hidden = top / ".local" / "share" / "data"
+    for dd in (plain, hidden):
+        dd.mkdir(parents=True)
+        shutil.copy(singles[0], dd / singles[0].name)
+        shutil.copy(maps[0], dd / maps[0].name)
+    (top / "plain" / "other").mkdir()
+    want = independent_count(singles[0]) + independent_count(maps[0])
+    old = os.getcwd()
+    spellings = [
+        ("absolute", lambda: plain),
+        ("with ..", lambda: top / "plain" / "other" / ".." / "data"),
+        ("below a hidden folder", lambda: hidden),
+        ("relative ../data", lambda: pathlib.Path("..") / "data"),
+        ("single file below a hidden folder",
+         lambda: hidden / singles[0].name),
+    ]
+    for sname, mk in spellings:
+        run.case({"path-spelling": sname}, kind="path-spelling")
+        try:
+            os.chdir(top / "plain" / "other")
+            with warnings.catch_warnings():
+                warnings.simplefilter("ignore")
+                pth = mk()
+                grp = nanite.load_group(pth)
+                n_paths = len(nread.get_data_paths_enum(pth)) \
+                    if hasattr(nread, "get_data_paths_enum") else None
+            exp = 1 if sname.startswith("single") else want
+            why = None
+            if len(grp) != exp:
+                why = f"load_group returned {len(grp)} curves, {exp} recorded"
+            elif n_paths is not None and n_paths != exp:
+                why = (f"get_data_paths_enum lists {n_paths} curves, {exp} "
+                       "recorded")
+        except BaseException as e:
+            why = f"raised {type(e).__name__}: {e}"
+        finally:
+            os.chdir(old)
+        if why:
+            run.failing(SITE, f"path-spelling:{sname}", f"folder given as "
+                        f"'{sname}': {why}", payload={"kind": "rerun"},
+                        theorem="C20 (one object per curve)")
+    shutil.rmtree(top, ignore_errors=True)
+
+
 def synthetic_group(shape, order, missing, seed):
     """curves on a grid of the given shape visited in the given scan order"""
     from nanite import IndentationGroup
@@ -727,6 +787,7 @@ def check(run):
     exprs, descr = [], []
     loading(run, exprs, descr)
     folder_history_cases(run)
+    path_spelling_cases(run)
     maps(run, exprs, descr)
     fits.eval_bool_cases(run, "c20_qmap", exprs, descr, head=HEAD, chunk=30)
     run.rule = ("every recorded force-distance file, folders mixing single "
